@@ -14,7 +14,9 @@ SAMPLE_POOLS = [["", "A", "A ", "é"], ["HT-29", "MCF7 ", "mcf7-long-name", "中
                 ["c%02d" % i for i in range(13)]]
 TREAT_POOLS = [["", "A", "A ", "zz"], ["5-FU", "Drug B", "drug", "é́"], ["d0", "d1", "d2", "d3"], ["d", "d1", "d1.0", "d11"], ["d0", "d1", "d2", "d3"]]
 PLATE_POOLS = [["", "P", "P ", "p1"], ["plate 0", "plate 1", "plate 2", "plate-é"], ["0", "1", "2", "3"], ["1", "p", "p1", "p11"], ["0", "1", "2", "3"]]
-DOSE_POOLS = [{0: -1.0, 1: 0.0, 2: 1.0, 3: 2.5}, {0: -5e-324, 1: -0.0, 2: 5e-324, 3: 1e-3}, {0: -2.0, 1: 0.0, 2: 0.1, 3: 1e300},
+# (dose 4 of pool 0 has no exact float32 form and is used by ONE condition that the hold-out can take out of the training rows,
+#  while every other dose of that fixture is exact in float32)
+DOSE_POOLS = [{0: -1.0, 1: 0.0, 2: 1.0, 3: 2.5, 4: 0.1}, {0: -5e-324, 1: -0.0, 2: 5e-324, 3: 1e-3}, {0: -2.0, 1: 0.0, 2: 0.1, 3: 1e300},
               {0: -1.0, 1: 0.0, 2: 1.0, 3: 11.0}, {0: -2.0, 1: 0.0, 2: 0.1, 3: 1e300}]
 NEWVAL = 900
 ABSENT_CTL = "￿-no-control"
@@ -412,7 +414,7 @@ def fixtures(rnd, n_random):
     fs = [
         # sample 2 and treatment (2,3) occur only in one row of an unobserved plate: the hold-out can take them away
         Fixture([(0, [c(0, 2), c(1, 2)], 0, 1), (0, [c(1, 2), c(3, 1)], 0, 2), (1, [c(0, 2), c(1, 3)], 1, 3),
-                 (2, [c(2, 3), c(1, 2)], 1, 4), (1, [c(0, 3), c(3, 2)], 2, 5), (0, [c(1, 3), c(0, 2)], 2, 6)],
+                 (2, [c(2, 4), c(1, 2)], 1, 4), (1, [c(0, 3), c(3, 2)], 2, 5), (0, [c(1, 3), c(0, 2)], 2, 6)],
                 obs=[0], ctl=3, fn=1, fd=2, pools=0, name="heldout-only-names"),
         # zeros and NaN behind the mask: reveal refusal paths; arity 1; no control name in the data
         Fixture([(0, [c(0, 2)], 0, 1), (1, [c(1, 2)], 1, 2), (1, [c(1, 3)], 1, 2), (0, [c(2, 2)], 2, 3), (2, [c(0, 1)], 2, 4),
